@@ -356,6 +356,35 @@ def _publish(repo, rep):
                           % n.lineno, construct="early-flag:%s" % (
                               fn.name if fn else "?"),
                           where="%s:%d" % (m.relpath, n.lineno))
+    # the instance dictionary is shared with every other thread that uses
+    # the template: walking it directly races with a concurrent attribute
+    # assignment ("dictionary changed size during iteration"); only a
+    # snapshot (list(...), tuple(...), .copy()) may be iterated
+    live = []
+    for q, fn in sorted(repo.funcs.items()):
+        if not q.startswith(("chameleon.template.", "chameleon.zpt.template.",
+                             "chameleon.loader.")):
+            continue
+        for n in ast.walk(fn.node):
+            its = []
+            if isinstance(n, ast.For):
+                its.append(n.iter)
+            elif isinstance(n, ast.comprehension):
+                its.append(n.iter)
+            for it in its:
+                t_ = src(it).replace(" ", "")
+                if t_.endswith(".__dict__") or t_.endswith(
+                        ".__dict__.items()") or t_.endswith(
+                            ".__dict__.keys()") or t_.endswith(
+                                ".__dict__.values()"):
+                    live.append((fn, n.lineno if hasattr(n, "lineno")
+                                 else it.lineno, src(it)))
+    rep.check(not live, "R14.4", "chameleon.template", "no loop or "
+              "comprehension walks an instance dictionary directly (a "
+              "snapshot is taken first)", construct="dict-walked-live",
+              where=(L.where(live[0][0], live[0][1]) if live else ""),
+              detail="; ".join("%s: %s" % (f_.qualname, t_)
+                               for f_, _, t_ in live[:3]))
     # a reader never proceeds past cook_check while the flag is down
     from .c16 import cook_check_never_returns_uncooked
     okr, detail = cook_check_never_returns_uncooked(repo)
